@@ -32,4 +32,6 @@ VARIANTS = [
       "    start_time, _, end_time, _ = compute_bounds(geometry)\n    start_time = start_time - clip.start_time\n    end_time = end_time - clip.start_time\n\n    if (end_time <= clip.start_time + minimum_overlap) or (\n        start_time >= clip.duration - minimum_overlap", "R12.5"),
     V("N-is-in-clip-fully-migrated", "src/soundevent/geometry/operations.py", "    start_time, _, end_time, _ = compute_bounds(geometry)\n\n    if (end_time <= clip.start_time + minimum_overlap) or (\n        start_time >= clip.end_time - minimum_overlap",
       "    start_time, _, end_time, _ = compute_bounds(geometry)\n\n    if (end_time <= clip.start_time + minimum_overlap) or (\n        start_time >= clip.start_time + clip.duration - minimum_overlap", None),
+    # F24: the pre-repair form
+    V("temporal-overlap-not-exported(F24)", "src/soundevent/geometry/__init__.py", "    have_temporal_overlap,\n", "", "R12.6"),
 ]
